@@ -8,7 +8,7 @@
    ROUND_KEY_BITS_INDEXES, PC1, PC2, nb_shift, the unknown-bit mask).  A value None of a model = the call is refused. *)
 From Coq Require Import NArith List Bool Arith.
 From ScaredV Require Import Generated.KeySchedTables Spec.Fips197 Spec.DesKeySpec Run.Compare
-  Model.KeySchedule Proofs.KeySchedule Proofs.KeyScheduleDes.
+  Model.KeySchedule Proofs.KeySchedule Proofs.KeyScheduleDes Proofs.KeyScheduleMaster.
 Import ListNotations.
 Local Open Scope nat_scope.
 
@@ -89,6 +89,44 @@ Theorem des_ks_ignores_parity : forall k k', map (fun b => (b / 2)%N) k = map (f
 Proof. exact des_ks_ignores_parity_lemma. Qed.
 Print Assumptions des_ks_ignores_parity.
 
+(* ================================================================== DES: the master key from one round key *)
+(* _find_possible_keys on round key r of ANY key: exactly 256 candidates, the parity-stripped key is one of them, and every
+   candidate has the same round-r key (so nothing but a plaintext / ciphertext pair can tell them apart) *)
+Theorem candidates_contain_key : forall key r, wf_des_key key -> r < 16 ->
+  let rk := nth r (des_ks_spec key) [] in
+  length (find_possible_keys rk r) = 256
+  /\ In (strip_parity key) (find_possible_keys rk r)
+  /\ forall c, In c (find_possible_keys rk r) -> nth r (des_ks_spec c) [] = rk.
+Proof. exact candidates_contain_key_lemma. Qed.
+Print Assumptions candidates_contain_key.
+
+(* get_master_key, for ALL arguments and ALL encryption functions [encrypt pt key]: a key is returned iff it is the FIRST
+   candidate that encrypts pt to ct; None is returned only when no candidate does *)
+Theorem get_master_key_result : forall (encrypt : list N -> list N -> list N) rk r pt ct,
+  (forall g, get_master_key_m encrypt rk r pt ct = GmkFound g ->
+     exists l1 l2, find_possible_keys rk r = l1 ++ g :: l2 /\ encrypt pt g = ct /\ forall h, In h l1 -> encrypt pt h <> ct)
+  /\ (get_master_key_m encrypt rk r pt ct = GmkNone -> forall h, In h (find_possible_keys rk r) -> encrypt pt h <> ct).
+Proof. exact get_master_key_result_lemma. Qed.
+Print Assumptions get_master_key_result.
+
+(* From round key r of a key and a genuine pair (pt, ct = encrypt pt key), for every cipher that uses the key only through
+   its key schedule (DES does: property C06): the call is never refused and never returns None; the key returned maps pt to
+   ct and has the given round key; and it IS the original key with its parity bits cleared PROVIDED NO EARLIER CANDIDATE
+   COLLIDES ON THIS BLOCK.  The proviso cannot be removed: a one-block test cannot exclude another candidate that happens to
+   map pt to ct (probability about 2^-56 per call); it is the only difference from the wording of the property. *)
+Theorem get_master_key_spec : forall (encrypt : list N -> list N -> list N) key pt r,
+  wf_des_key key -> wf_des_block pt -> r < 16 ->
+  (forall k k', des_ks_spec k = des_ks_spec k' -> encrypt pt k = encrypt pt k') ->
+  wf_des_block (encrypt pt key) ->
+  let rk := nth r (des_ks_spec key) [] in
+  let ct := encrypt pt key in
+  (exists g, get_master_key_m encrypt rk r pt ct = GmkFound g
+             /\ encrypt pt g = ct /\ nth r (des_ks_spec g) [] = rk /\ In g (find_possible_keys rk r))
+  /\ ((forall l1 l2, find_possible_keys rk r = l1 ++ strip_parity key :: l2 -> forall h, In h l1 -> encrypt pt h <> ct) ->
+      get_master_key_m encrypt rk r pt ct = GmkFound (strip_parity key)).
+Proof. exact get_master_key_spec_lemma. Qed.
+Print Assumptions get_master_key_spec.
+
 (* ================================================================== non-vacuity *)
 (* FIPS-197 Appendix A.1 / A.2 / A.3: the model on the Appendix keys gives the printed words; from the window at columns
    20.. of the 256-bit schedule both directions give back the printed schedule *)
@@ -125,6 +163,32 @@ Example des_known_schedule :
   /\ des_ks_m k (Some 0) = option_map (firstn 1) (des_ks_m k None).
 Proof.
   cbv zeta. split; [apply wf_des_key_dec; vm_compute; reflexivity|].
+  repeat match goal with |- _ = _ /\ _ => split; [vm_compute; reflexivity|] end.
+  vm_compute; reflexivity.
+Qed.
+
+(* get_master_key on a concrete instance: key 133457799BBCDFF1, round 3, a toy cipher that XORs the block with all sixteen
+   round keys (it uses the key only through its schedule and produces blocks, as the theorem asks): the result is the key
+   without its parity bits, 123456789ABCDEF0, which is candidate number 232 of the 256.
+   With a weaker toy cipher that uses K_1 only, an EARLIER candidate (163456789ABCDEF0, same K_1 and same K_4) collides and
+   is returned instead: the proviso of get_master_key_spec is needed. *)
+Example get_master_key_example :
+  let key := bytes_of 8 0x133457799BBCDFF1 in
+  let pt := bytes_of 8 0x0123456789ABCDEF in
+  let xor := fun (a b : list N) => map (fun x => N.lxor (fst x) (snd x)) (combine a b) in
+  let toy := fun (p k : list N) => fold_left xor (des_ks_spec k) p in
+  let weak := fun (p k : list N) => xor p (nth 0 (des_ks_spec k) []) in
+  let rk := nth 3 (des_ks_spec key) [] in
+  wf_des_key key /\ wf_des_block pt /\ wf_des_block (toy pt key) /\ wf_des_block (weak pt key)
+  /\ length (find_possible_keys rk 3) = 256
+  /\ nth 232 (find_possible_keys rk 3) [] = bytes_of 8 0x123456789ABCDEF0
+  /\ strip_parity key = bytes_of 8 0x123456789ABCDEF0
+  /\ get_master_key_m toy rk 3 pt (toy pt key) = GmkFound (bytes_of 8 0x123456789ABCDEF0)
+  /\ get_master_key_m toy rk 3 pt (bytes_of 8 0) = GmkNone
+  /\ get_master_key_m weak rk 3 pt (weak pt key) = GmkFound (bytes_of 8 0x163456789ABCDEF0).
+Proof.
+  cbv zeta.
+  do 4 (split; [apply wf_des_key_dec; vm_compute; reflexivity|]).
   repeat match goal with |- _ = _ /\ _ => split; [vm_compute; reflexivity|] end.
   vm_compute; reflexivity.
 Qed.
